@@ -43,6 +43,15 @@ func ruleInForceOf(tc *TrafficShapingController) *Rule {
 func setRuleInForce(tc *TrafficShapingController, rule *Rule) {
 	rulesInForceMux.Lock()
 	defer rulesInForceMux.Unlock()
+	if pendingRulesInForce != nil {
+		// a load is being built: recorded, and applied when its result is published
+		pendingRulesInForce.set = append(pendingRulesInForce.set, ruleInForceEntry{tc, rule})
+		return
+	}
+	applyRuleInForce(tc, rule)
+}
+
+func applyRuleInForce(tc *TrafficShapingController, rule *Rule) {
 	if rule == tc.BoundRule() {
 		delete(rulesInForce, tc)
 	} else {
@@ -50,20 +59,65 @@ func setRuleInForce(tc *TrafficShapingController, rule *Rule) {
 	}
 }
 
+type ruleInForceEntry struct {
+	key  *TrafficShapingController
+	rule *Rule
+}
+
+// ruleInForceEdits are the changes to the table that a load makes while it is being built. They take effect
+// when the load publishes its result and are dropped when it is abandoned (a generator that panics): a load
+// that fails changes nothing, also not what the rules still in force are reported and matched as.
+type ruleInForceEdits struct {
+	set    []ruleInForceEntry
+	forget []*TrafficShapingController
+}
+
+// pendingRulesInForce is set for the duration of a load (loads are serialised by the rule manager's update
+// lock); guarded by rulesInForceMux.
+var pendingRulesInForce *ruleInForceEdits
+
+func beginRuleInForceEdits() {
+	rulesInForceMux.Lock()
+	defer rulesInForceMux.Unlock()
+	pendingRulesInForce = &ruleInForceEdits{}
+}
+
+// endRuleInForceEdits applies (commit) or drops the edits recorded since beginRuleInForceEdits.
+func endRuleInForceEdits(commit bool) {
+	rulesInForceMux.Lock()
+	defer rulesInForceMux.Unlock()
+	edits := pendingRulesInForce
+	pendingRulesInForce = nil
+	if edits == nil || !commit {
+		return
+	}
+	for _, k := range edits.forget {
+		delete(rulesInForce, k)
+	}
+	for _, e := range edits.set {
+		applyRuleInForce(e.key, e.rule)
+	}
+}
+
 // forgetRulesInForce drops the entries of controllers that are no longer in use.
 func forgetRulesInForce(tcs []*TrafficShapingController, except []*TrafficShapingController) {
 	rulesInForceMux.Lock()
 	defer rulesInForceMux.Unlock()
-	if len(rulesInForce) == 0 {
-		return
-	}
-	kept := make(map[*TrafficShapingController]bool, len(except))
-	for _, tc := range except {
-		kept[tc] = true
-	}
-	for _, tc := range tcs {
-		if !kept[tc] {
-			delete(rulesInForce, tc)
+	for _, x := range tcs {
+		kept := false
+		for _, e := range except {
+			if e == x {
+				kept = true
+				break
+			}
+		}
+		if kept {
+			continue
+		}
+		if pendingRulesInForce != nil {
+			pendingRulesInForce.forget = append(pendingRulesInForce.forget, x)
+		} else {
+			delete(rulesInForce, x)
 		}
 	}
 }
